@@ -414,6 +414,7 @@ type C12Loaded struct {
 	Cfg     config.Config
 	sc      *C12Scenario
 	dests   []string
+	main    string // path of the config file
 	rules   string // path of the rules file
 	Current string // "a" or "b"
 }
@@ -444,7 +445,7 @@ func C12Load(dir string, sc *C12Scenario, dests []string, mainYAML string) (*C12
 	if err := os.WriteFile(cp, []byte(mainYAML), 0o644); err != nil {
 		return nil, err
 	}
-	ld := &C12Loaded{sc: sc, dests: dests, rules: rp, Current: "a"}
+	ld := &C12Loaded{sc: sc, dests: dests, main: cp, rules: rp, Current: "a"}
 	if err := ld.write("a"); err != nil {
 		return nil, err
 	}
@@ -465,16 +466,28 @@ func C12Load(dir string, sc *C12Scenario, dests []string, mainYAML string) (*C12
 	if err := ld.write("a"); err != nil {
 		return nil, err
 	}
-	opts, err := config.NewCmdEnvOptions([]string{"--no-validate", "--config", cp, "--rules_config", rp})
-	if err != nil {
+	if err := ld.Fresh(); err != nil {
 		return nil, err
+	}
+	return ld, nil
+}
+
+// Fresh replaces Cfg by a new Config object (no reload callbacks registered)
+// with file a loaded.
+func (ld *C12Loaded) Fresh() error {
+	if err := ld.write("a"); err != nil {
+		return err
+	}
+	opts, err := config.NewCmdEnvOptions([]string{"--no-validate", "--config", ld.main, "--rules_config", ld.rules})
+	if err != nil {
+		return err
 	}
 	c, err := config.NewConfig(opts)
 	if err != nil {
-		return nil, err
+		return err
 	}
-	ld.Cfg = c
-	return ld, nil
+	ld.Cfg, ld.Current = c, "a"
+	return nil
 }
 
 func (ld *C12Loaded) write(which string) error {
